@@ -512,7 +512,7 @@ func pick(r *rand.Rand, weighted ...interface{}) string {
 	return weighted[0].(string)
 }
 
-var endpoints = []string{"sign_in", "sign_out", "start", "callback", "flow"}
+var endpoints = []string{"sign_in", "sign_out", "start", "callback", "flow", "cbflow", "tamper"}
 
 func hasRawCtl(s string) bool {
 	for i := 0; i < len(s); i++ {
@@ -598,6 +598,10 @@ func (rn *runner) runCase(i int) {
 		rn.caseStart(i, r, base, modeA, ti, kc, ep == "flow")
 	case "callback":
 		rn.caseCallback(i, r, ti, kc)
+	case "cbflow":
+		rn.caseCallbackFlow(i, r, base, modeA, ti, kc)
+	case "tamper":
+		rn.caseTamperFlow(i, r, base, modeA, ti, kc)
 	}
 	_ = as
 }
@@ -690,6 +694,11 @@ func (rn *runner) caseSignIn(i int, r *rand.Rand, base int64, modeA bool, ti int
 		pairs = append(pairs, kv{K: "state", V: stateV})
 	}
 	pairs = append(pairs, ss.pairs...)
+	if r.Intn(3) == 0 {
+		// decoys: fresh-looking signature material in places the endpoint must not read it from
+		cookies = append(cookies, "ts="+fmt.Sprint(base), "sig=decoy")
+		kc.Cookie += "+ts-cookie"
+	}
 	rs := rn.send(r, kc.Method, as.Path("sign_in"), pairs, cookies, true, &kc)
 	if !rn.observe(&kc, rs, "") {
 		return
@@ -746,6 +755,10 @@ func (rn *runner) caseSignOut(i int, r *rand.Rand, base int64, modeA bool, ti in
 				pairs[k].Body = pairs[k].K == "redirect_uri"
 			}
 		}
+	}
+	if r.Intn(3) == 0 {
+		cookies = append(cookies, "ts="+fmt.Sprint(base), "sig=decoy")
+		kc.Cookie += "+ts-cookie"
 	}
 	rs := rn.send(r, kc.Method, as.Path("sign_out"), pairs, cookies, true, &kc)
 	if !rn.observe(&kc, rs, "") {
@@ -1120,7 +1133,7 @@ func readerSelfTest() []string {
 func TestProp(t *testing.T) {
 	env := vh.GetEnv()
 	rep := vh.NewReport("C07", "exploration")
-	rep.Rule("cases walk (stride) over endpoint{sign_in,sign_out,start,callback,start->callback->sign_in flow} x redirect-URI template (" + strconv.Itoa(len(templates)) + " parser-differential shapes in 9 families) x mode{valid signature, signature/timestamp sweep} per root-domain configuration {single, leading dot, multiple, nested, nested+multiple}; signature variant (18), timestamp variant (30), parameter duplication (9), placement (query/body), cookie state, method and wire form are drawn per case. distinct = the tuple (endpoint, step, template, position, duplication, placement, sig variant, ts variant, cookie, method, wire, config kind) of every request sso answered")
+	rep.Rule("cases walk (stride) over endpoint{sign_in,sign_out,start,callback,start->callback->sign_in flow, forged-state callback->sign_in flow, start->tampered state->callback->sign_in flow (the last three judged as a whole against what the client supplied)} x redirect-URI template (" + strconv.Itoa(len(templates)) + " parser-differential shapes in 9 families) x mode{valid signature, signature/timestamp sweep} per root-domain configuration {single, leading dot, multiple, nested, nested+multiple}; signature variant (18), timestamp variant (30), parameter duplication (9), placement (query/body), cookie state, method and wire form are drawn per case. distinct = the tuple (endpoint, step, template, position, duplication, placement, sig variant, ts variant, cookie, method, wire, config kind) of every request sso answered")
 	rep.Assume("the fake IdP answers as scripted; Go's net/http client hands the Location header through unmodified (apart from trimming optional whitespace)")
 	rep.Assume("timestamps are generated at fixed offsets (>= 60 s away from the five-minute edge) from the instant the case is built; a request takes far less than the 10 s guard band")
 	rep.Assume("future timestamps, hosts with non-ASCII characters whose IDNA mapping decides membership, and URL schemes are don't-cares (counted, not judged)")
@@ -1135,7 +1148,7 @@ func TestProp(t *testing.T) {
 	}
 
 	nConfigs := env.Pick(5, 20)
-	perConfig := env.Pick(1200, 9000)
+	perConfig := env.Pick(1500, 7000)
 	only, skipAll := env.Only(stream)
 	if skipAll {
 		rep.Finish()
@@ -1195,6 +1208,9 @@ func TestProp(t *testing.T) {
 		rep.Floor("signout_redirects", 50)
 		rep.Floor("callback_redirects", 50)
 		rep.Floor("flow_code_redirects", 5)
+		rep.Floor("wholeflow_code_redirects", 10)
+		rep.Floor("wholeflow_sign_in_refused", 100)
+		rep.Floor("wholeflow_callback_redirects", 200)
 		rep.Floor("sign_in_pages", 20)
 		rep.Floor("sign_out_pages", 20)
 		rep.Floor("error_pages", 500)
